@@ -108,10 +108,24 @@ package memkv
 // The unconditional delete is the engine's Del API and nothing else: in particular the expiry timer
 // must not use it, it may only remove the binding that scheduled it.
 //@ func (*store).del(key) (err)
-//@   props C17 C11
+//@   props C17 C11 C12
 //@   nosafety
 //@   modifies *
 //@   callers_only (*store).Del
+//@   ensures [deleting-what-is-not-there-is-not-an-error] !err_is(err, storage.ErrKeyNotFound) && !err_is(err, storage.ErrCASFailed)
+
+// (the in-memory BeginBatchWrite seen through the interface's ghost view; its body takes the store lock)
+//@ func (*store).BeginBatchWrite() (batch)
+//@   assumed
+//@   modifies ghost.bw_n ghost.batch_open
+//@   ensures [new] batch != nil && bw_n == upd(old(bw_n), batch, 0) && batch_open
+
+// the engine's unconditional delete: a missing key is a no-op, as on the other engines
+//@ func (*store).Del(ctx, key) (err)
+//@   props C11 C12
+//@   nosafety
+//@   modifies *
+//@   ensures [deleting-what-is-not-there-is-not-an-error] !err_is(err, storage.ErrKeyNotFound) && !err_is(err, storage.ErrCASFailed)
 
 // the expiry timer: under the store's lock, removes the key only if it still holds exactly the value
 // that was written with the ttl (a rewritten key is a new binding with its own lifetime)
